@@ -140,7 +140,7 @@ CHECKS["C20"] = dict(
         [ob("VH_C20_recv_arbitrary", dict(K=4), T, pkg=UTIL, covers=["rejected", "accepted"], bounds="RecvMsg on every stream of 4 arbitrary length bytes + 4 arbitrary payload bytes"),
          ob("VH_C20_framing", dict(D1=0, D2=0, ID=0), pkg=UTIL, covers=["done"], bounds="2 packets (symbolic type, possibly empty), every fragmentation of the <=12 byte stream"),
          ob("VH_C20_framing", dict(D1=1, D2=0, ID=0), T, pkg=UTIL, covers=["done"], bounds="2 packets (1 and 0 data bytes), every fragmentation"),
-         ob("VH_C20_framing", dict(D1=0, D2=0, ID=1), T, pkg=UTIL, covers=["done"], bounds="2 packets with symbolic ids (1- and 5-byte varints), every fragmentation"),
+         ob("VH_C20_framing", dict(D1=0, D2=0, ID=1), T, pkg=UTIL, covers=["done"], bounds="2 packets, the first with a symbolic id (1- and 5-byte varints), every fragmentation", max_paths=600000),
         ] + [
         ],
 )
